@@ -11,6 +11,7 @@
 // replayed like any other input.  See DESIGN.md appendix A for the semantics.
 #pragma once
 
+#include <algorithm>
 #include <atomic>
 #include <cassert>
 #include <chrono>
@@ -47,6 +48,11 @@ struct ChoiceSource
   // the running thread used up its fairness quantum and is switched out (priority-based sources
   // demote it, otherwise a spinning high-priority thread starves the thread it waits for)
   virtual void quantum_expired(int /*thread_id*/) {}
+  // Asked at every decision at which the running thread could continue: a non-zero answer takes that
+  // thread off the processor for that many scheduling points (as an operating system may deschedule a
+  // thread for a long time in the middle of anything); it runs earlier only if nothing else can run.
+  // The fairness quantum does not apply to a stalled thread - that is the point.
+  virtual uint64_t stall_points(int /*thread_id*/) { return 0; }
 };
 
 struct Options
@@ -195,6 +201,7 @@ public:
   uint64_t preemptions() const { return preemptions_; }
   uint64_t spurious_failures() const { return spurious_; }
   uint64_t forced_switches() const { return forced_switches_; }
+  uint64_t stalls() const { return stalls_; }
   int thread_count() const { return static_cast<int>(threads_.size()); }
   int self_id() const { return tl_self ? tl_self->id : -1; }
   // scheduling points executed by the calling logical thread itself
@@ -413,6 +420,32 @@ private:
       best->timed      = false;
       best->timed_out  = true;
     }
+    if (cur >= 0 && stall_id_ < 0 && runnable_.size() > 1)
+    {
+      uint64_t st = src_->stall_points(cur);
+      if (st)
+      {
+        stall_id_    = cur;
+        stall_until_ = steps_ + st;
+        ++stalls_;
+      }
+    }
+    if (stall_id_ >= 0)
+    {
+      if (steps_ >= stall_until_)
+        stall_id_ = -1;
+      else if (runnable_.size() > 1)
+      {
+        // the stalled thread is not a candidate while anybody else can run
+        auto it = std::find(runnable_.begin(), runnable_.end(), stall_id_);
+        if (it != runnable_.end())
+        {
+          runnable_.erase(it);
+          if (cur == stall_id_)
+            cur = -1;
+        }
+      }
+    }
     size_t n = runnable_.size();
     if (n == 1)
     {
@@ -499,6 +532,8 @@ private:
   int current_   = 0;
   int last_run_  = 0;
   uint64_t stamp_step_ = ~uint64_t(0), stamp_sub_ = 0;
+  int stall_id_         = -1;
+  uint64_t stall_until_ = 0, stalls_ = 0;
   uint64_t steps_ = 0, now_ns_ = 1000000, preemptions_ = 0, spurious_ = 0, forced_switches_ = 0;
   unsigned run_len_ = 0;
 };
@@ -991,7 +1026,7 @@ private:
 // run one scenario on the calling OS thread as logical thread 0
 struct RunStats
 {
-  uint64_t steps = 0, preemptions = 0, spurious = 0, forced_switches = 0, virtual_ns = 0;
+  uint64_t steps = 0, preemptions = 0, spurious = 0, forced_switches = 0, virtual_ns = 0, stalls = 0;
   int threads  = 0;
   bool leaked_threads = false;
 };
@@ -1007,6 +1042,7 @@ RunStats run(ChoiceSource *src, const Options &opt, FatalHandler fatal, Body &&b
   r.preemptions = s.preemptions();
   r.spurious    = s.spurious_failures();
   r.forced_switches = s.forced_switches();
+  r.stalls          = s.stalls();
   r.virtual_ns  = s.now_ns();
   r.threads     = s.thread_count();
   r.leaked_threads = !s.leave_main();
